@@ -517,7 +517,7 @@ impl Check for C16 {
     type Case = Case;
     const ID: &'static str = "C16";
     fn runs(t: Tier) -> u64 {
-        t.pick(12_000, 600_000)
+        t.pick(30_000, 1_000_000)
     }
     fn generate(rng: &mut Rng, _tier: Tier, idx: u64) -> Case {
         if idx % 3 != 0 {
